@@ -67,8 +67,8 @@ def u32(n):
 def gen_cases(tier, seed):
     rng = random.Random(f'c10-{seed}')
     cases = []
-    nraw = 260 if tier == 'quick' else 20000
-    npeer = 420 if tier == 'quick' else 30000
+    nraw = 600 if tier == 'quick' else 20000
+    npeer = 900 if tier == 'quick' else 30000
     npar = 60 if tier == 'quick' else 4000
 
     for _ in range(nraw):
@@ -112,7 +112,7 @@ def gen_cases(tier, seed):
                       'cseed': rng.randrange(1 << 30)})
 
     # SFTP requests whose offset / length / size fields are extreme
-    nsftp = 60 if tier == 'quick' else 1500
+    nsftp = 150 if tier == 'quick' else 1500
     for i in range(nsftp):
         cases.append({'kind': 'sftp', 'version': rng.choice([3, 3, 4, 6]),
                       'n': 8, 'cseed': rng.randrange(1 << 30)})
